@@ -226,10 +226,13 @@ def run(tier):
     ck.add_tlc(rsdp, "sdp_fingerprint")
     cases = {}
     for c in vlib.read_ndjson(cs):
-        cases[f"sdp-{c['session']}-{c['media']}"] = c
+        cases[f"sdp-{c['session']}-{c['media']}-{c['media2']}"] = c
     os.remove(cs)
     pc_cases = [dict(c, id=k) for k, c in sorted(cases.items())]
-    pc_out = dc.run_scenarios(ck, pc_cases, tier + "_pc", nproc=8, timeout=900, sub="pc")
+    pc_out = dc.run_scenarios(ck, pc_cases, tier + "_pc", nproc=12, timeout=900, sub="pc")
+    bad_rig = [o["id"] for o in pc_out if "panic" not in o and o["obs"].get("media_sections") not in (None, 2)]
+    if bad_rig:
+        raise vlib.ToolError(f"PeerConnection rig did not produce two media sections: {bad_rig[:3]}")
     pc_connected = 0
     for o in pc_out:
         c = o["case"]
@@ -242,7 +245,7 @@ def run(tier):
         pc_connected += 1 if ob["connected"] else 0
         if (ob["connected"] or "A" in ob.get("dtls_connected", [])) and exp != "Connected":
             ck.divergence({"sub": "dtls", "rule": "ClientAuthenticatesServer", "role": "client", "by": "sdp",
-                           "session": c["session"], "media": c["media"]}, dict(base, obs=ob))
+                           "session": c["session"], "media": c["media"], "media2": c["media2"]}, dict(base, obs=ob))
         elif exp == "Connected" and not ob["connected"]:
             ck.drift.append({"rule": "GenuineFingerprintConnects", "case": c, "obs": {k: ob.get(k) for k in ("set_remote", "state_A", "dtls_failed")}})
         elif exp == "Rejected" and ob.get("set_remote") == "ok":
@@ -312,7 +315,8 @@ def replay(path):
         o = dc.run_scenarios(ck, [dict(sc, id="replay")], "replay_pc", nproc=1, sub="pc")[0]
         if "panic" not in o and (o["obs"]["connected"] or "A" in o["obs"].get("dtls_connected", [])) and sc.get("expected") != "Connected":
             ck.divergence({"sub": "dtls", "rule": "ClientAuthenticatesServer", "role": "client", "by": "sdp",
-                           "session": sc["session"], "media": sc["media"]}, {"scenario": sc, "obs": o["obs"]})
+                           "session": sc["session"], "media": sc["media"], "media2": sc.get("media2")},
+                          {"scenario": sc, "obs": o["obs"]})
         ck.cov.update(states=1, transitions=1, traces_validated_against_impl=1, samples=[sc])
         ck.finish()
     outcomes = dc.run_scenarios(ck, [sc], "replay", nproc=1)
